@@ -225,6 +225,70 @@ def fb(ctx):
         strip(strip(u[2][0][2][0][2][0])) == ('field', GA, 'arguments') or (is_call(u, 'Iterator::collect') and any(strip(x) == ('field', GA, 'arguments') for x in walk(u)) and not any(
             re.search(r'Iterator::(rev|skip|take|filter|step_by|chain|map_while|scan|take_while|skip_while|fuse|cycle)$', c_[1]) for c_ in calls_in(u)))
     ctx.ob(['C05', 'C04'], 'R-ITER', 'FB|arguments-in-order', bool(oka), 'semantic arguments are the grammar arguments mapped one to one in declaration order: %s' % show(u)[:160], where)
+    # what each grammar argument becomes: &self -> ConstSelf, &mut self -> MutSelf, name: T -> Field(name, resolve(scope, T)) — the
+    # resolved type itself, not something derived from it (an array that "decays" to a pointer is a different signature)
+    mp = [x for x in walk(u) if is_call(x, 'Iterator::map') and len(x[2]) == 2]
+    okm, detm = False, 'mapping closure not found'
+    pf = predicate_fn(P, mp[0][2][1]) if mp else None
+    rows = None
+    if pf is None:
+        # loop form: `for a in &function.arguments { arguments.push(match a { .. }) }`
+        pu = [c for c in f.calls(lambda r: r['path'] and re.search(r'Vec::<T, A>::push$', r['path'])) if 'function::Argument' in str(c['term']['args'][1].get('place', {}).get('ty', '') or c['term']['args'][1].get('ty', ''))]
+        if len(pu) == 1:
+            rows = []
+            for conds, v in value_table(f, f.expr_of_operand(pu[0]['term']['args'][1])):
+                labs = sorted({lab for c_, lab in conds if isinstance(c_, tuple) and c_ and c_[0] == 'discr' and lab in ('ConstSelf', 'MutSelf', 'Named')})
+                v = strip(expand(f, v))
+                while v[0] in ('try',) or (v[0] == 'agg' and v[1].endswith('Result::Ok') and v[2]):
+                    v = strip(v[1] if v[0] == 'try' else v[2][0][1])
+                rows.append((labs, v))
+            sw = [1]
+    if pf is not None:
+        rows = []
+        sw = [s_ for s_ in pf.switches() if s_['cond'][0] == 'discr' and strip(s_['cond'][1])[0] in ('arg', 'carg') and set(s_['cond'][2]) >= {'ConstSelf', 'MutSelf', 'Named'}]
+        for x in pf.exits():
+            if x['kind'] not in ('ok', 'passthrough', 'other'):
+                continue
+            labs = sorted({lab for s_ in sw for lab, tgt in s_['edges'] if tgt == x['block'] or pf.dominates(tgt, x['block'])})
+            v = strip(expand(pf, x['expr']))
+            while v[0] == 'agg' and v[1].endswith('Result::Ok') and v[2]:
+                v = strip(v[2][0][1])
+            rows.append((labs, v))
+    if rows is not None:
+        def field_ok(v):
+            if v[0] != 'agg' or not v[1].endswith('Argument::Field') or len(v[2]) != 2:
+                return False
+            nm, ty = strip(v[2][0][1]), strip(v[2][1][1])
+            while nm[0] == 'call' and nm[2] and re.search(r'(::clone|::to_string|::to_owned|::as_str|Into<.*>>::into|From<.*>>::from|Deref>::deref)$', nm[1]):
+                nm = strip(nm[2][0])
+            named = lambda q, i: (q[0] == 'field' and q[2] == '0' and named(strip(q[1]), i)) if i is None else (strip(q)[0] == 'payload' and strip(q)[2] == 'Named')
+            okn_ = (nm[0] == 'field' and nm[2] == '0' and strip(nm[1])[0] == 'payload' and strip(nm[1])[2] == 'Named') or (nm[0] == 'payload' and nm[2] == 'Named')
+            for _ in range(6):
+                if ty[0] == 'try':
+                    ty = strip(ty[1])
+                elif ty[0] == 'payload' and ty[2] in ('Some', 'Ok', 'Continue'):
+                    ty = strip(ty[1])
+                elif ty[0] == 'call' and ty[2] and re.search(r'(::ok_or_else|::ok_or|::with_context|::context)$', ty[1]):
+                    ty = strip(ty[2][0])
+                else:
+                    break
+            okt_ = is_call(ty, 'TypeRegistry::resolve_grammar_type') and len(ty[2]) == 3 and any(
+                isinstance(y, tuple) and y and y[0] == 'payload' and y[2] == 'Named' for y in walk(ty[2][2]))
+            return okn_ and okt_
+        kinds = []
+        for labs, v in rows:
+            if v[0] == 'agg' and v[1].endswith('Argument::ConstSelf') and labs == ['ConstSelf']:
+                kinds.append('ConstSelf')
+            elif v[0] == 'agg' and v[1].endswith('Argument::MutSelf') and labs == ['MutSelf']:
+                kinds.append('MutSelf')
+            elif labs in (['Named'], []) and field_ok(v):
+                kinds.append('Field')
+            else:
+                kinds.append('? %s under %s' % (show(v)[:60], labs))
+        okm = sorted(kinds) == ['ConstSelf', 'Field', 'MutSelf'] and len(sw) >= 1
+        detm = '%s' % kinds
+    ctx.ob(['C05', 'C04', 'C06', 'C16'], 'R-SLP', 'FB|argument-mapping', okm,
+           '&self becomes ConstSelf, &mut self becomes MutSelf, `name: T` becomes Field(name, resolve_grammar_type(scope, T)) with the resolved type unchanged: %s' % detm, where)
 
 
 def return_type_rows(f, e, GA):
